@@ -178,9 +178,15 @@ theorem valid_sum_infactor_f4 : (pool[29]'(by decide)).Valid := by
   have hc : FreeIn ρ "f4" "c" := h ("f4", "c") (by simp)
   simp only [evalP, hc env, sum7]; ring
 
+theorem valid_var_factor : (pool[30]'(by decide)).Valid := by
+  intro ρ _ env
+  simp only [pool, List.getElem_cons_succ, List.getElem_cons_zero, evalP]
+  have h1 : (Fin.ofNat 7 1 : F) = 1 := rfl
+  rw [h1]; ring
+
 theorem pool_valid : ∀ r ∈ pool, r.Valid := by
   intro r hr
-  have hlen : pool.length = 30 := by decide
+  have hlen : pool.length = 31 := by decide
   obtain ⟨i, hi, rfl⟩ := List.getElem_of_mem hr
   rw [hlen] at hi
   interval_cases i
@@ -214,6 +220,7 @@ theorem pool_valid : ∀ r ∈ pool, r.Valid := by
   · exact valid_sum_infactor_f2
   · exact valid_sum_infactor_f3
   · exact valid_sum_infactor_f4
+  · exact valid_var_factor
 
 /-- the deliberately invalid rules are indeed invalid (witness: constant interpretations) -/
 theorem bad_sum_const_invalid : ¬ (badPool[1]'(by decide)).Valid := by
